@@ -8,6 +8,7 @@ pub mod spec;
 pub mod statics;
 pub mod store;
 pub mod util;
+pub mod h_dimacs;
 pub mod h_dynamic;
 pub mod h_iccma;
 pub mod h_indep;
